@@ -139,6 +139,15 @@ def serial_scenarios(tier, seed):
                                                 {"name": "C", "mode": "sequence", "unit": [["dapc", 9], ["q16", 10]],
                                                  "start": {"time": 12.0}}],
                                     "tail_sends": 0, "tag": "dies-mid-report"})
+            # a confirmation that comes only after the driver has stopped waiting for it, then silence for good: the next send
+            # fails within the timeout like the first (the late confirmation is not taken for its own)
+            if key in ("q16", "dapc", "cfg"):
+                scs.append({"driver": drv, "late_confirm": 1, "late_by": 0.16 if drv == "sci" else 1.3, "silent_from": 2,
+                            "outcomes": [["val", 9]],
+                            "callers": [{"name": "A", "mode": "send", "unit": [[key, 2]]},
+                                        {"name": "B", "mode": "send", "unit": [["q16", 8]], "start": {"time": 4.0}},
+                                        {"name": "C", "mode": "send", "unit": [["dapc", 9]], "start": {"time": 8.0}}],
+                            "tail_sends": 0, "tag": "late-confirm"})
             for outcome in (["none", 0], ["err", 0]):
                 scs.append({"driver": drv, "outcomes": [outcome],
                             "callers": [{"name": "A", "mode": "send", "unit": [[key, 2], ["q16", 3]]}], "tail_sends": 5,
